@@ -161,7 +161,8 @@ fn check(args: &[String]) -> i32 {
         eprintln!("HARNESS-ERROR: only {n_harvested} programs harvested from {}", repo.display());
         return 2;
     }
-    let w = Workload::new(progs, n_harvested);
+    let mut w = Workload::new(progs, n_harvested);
+    w.harvest_literals(&repo);
     println!("sessim: workload {} programs ({} harvested from the working tree, rest generated)", w.programs.len(), n_harvested);
 
     let cfg = SearchConfig {
@@ -327,6 +328,8 @@ fn build_evidence(
         "samples": samples,
         "programs": w.programs.len(),
         "programs_harvested_from_working_tree": w.n_harvested,
+        "env_names_found_as_literals_in_macro_sources": w.src_env_names,
+        "candidate_env_values_found_as_literals_in_macro_sources": w.src_env_values.len(),
         "programs_exercised_in_runs": s.programs_exercised.len(),
         "reference_solo_sessions": n_refs * 2,
         "reference_wall_s": (reference_wall * 100.0).round() / 100.0,
